@@ -50,7 +50,7 @@ def r1_ownership(ctx):
         s = eng.summary(f)
         effs = [e for e in s.effects if e.root == ("P", data) and consistent_flavour(e, fl)]
         for e in dedupe(effs):
-            if "[*]" in e.path[:-1] or "..." in e.path:
+            if any(p.startswith("[") for p in e.path[:-1]) or "..." in e.path:
                 continue  # write into a temporary obtained by a subscript load (view assumption)
             if "pandera" in e.path or e.site[0].endswith("Accessor.add_schema"):
                 continue  # accessor annotation, not part of the data snapshot
